@@ -210,6 +210,45 @@ def ddmin(items, still_fails, max_steps=400):
     return items
 
 
+def _run_sequence(args):
+    fn, items = args
+    out = []
+    for x in items:
+        try:
+            out.append(repr(fn(x)))
+        except Exception as e:  # noqa: BLE001
+            out.append("raised " + type(e).__name__)
+    return out
+
+
+def history_probe(ctx, res, fn, items, label, k=None, describe=None):
+    """Is what the real code returns for an input a function of that input alone?  A sample of the inputs is
+    evaluated twice, each time in ONE fresh process, once in the given order and once in reverse; the two answers for
+    the same input must be equal.  A difference means the result depends on what was computed earlier in the process
+    (a cache keyed too coarsely, a shared mutable default, a mutated argument): the functional model no longer
+    describes the code, reported as a correspondence failure `<prop>:corr:depends-on-earlier-calls:<label>` with the
+    input and both answers.  Answers that mention an abandoned solver call ('slow') are not compared."""
+    import multiprocessing as mp
+    items = list(items)
+    if k is None:
+        k = 120 if ctx.quick else 600
+    if len(items) > k:
+        items = ctx.rng.sample(items, k)
+    if len(items) < 2:
+        return
+    mpc = mp.get_context("fork")
+    with mpc.Pool(2) as pool:
+        fwd, bwd = pool.map(_run_sequence, [(fn, items), (fn, items[::-1])])
+    bwd = bwd[::-1]
+    res.count("history-probe:%s:inputs" % label, len(items))
+    for x, a, b in zip(items, fwd, bwd):
+        if a != b and "'slow'" not in a and "'slow'" not in b:
+            res.fail("corr", "%s:corr:depends-on-earlier-calls:%s" % (ctx.prop, label),
+                     {"family": "history-probe", "input": describe(x) if describe else x},
+                     "evaluated after other inputs: %s ... | evaluated before them: %s ..." % (a[:300], b[:300]))
+            break
+
+
 def parallel_map(fn, items, nproc=None, chunksize=None):
     """Run fn over items in a fork pool (real-code evaluation is CPU bound)."""
     import multiprocessing as mp
